@@ -148,7 +148,8 @@ class _Sim:
         c = self.c
         c.sched_cfg = None
         c.entropy = E.Entropy("pinned")
-        c.fault_plan = P.FaultPlan(fire)
+        kind = c.ch.weighted("f", [("runtime", 3), ("value", 2), ("cancel", 1)], "fault-kind") if fire else "runtime"
+        c.fault_plan = P.FaultPlan(fire, kind)
         numpy.random.seed(self.g % (2**32 - 1))
 
     def viol(self, oracle, detail, msg):
